@@ -23,10 +23,12 @@ def _writer(st, ops, sh, wi, start, case):
     instr.reset_for_child(f"workerW{wi}")
     start.wait(20)
     try:
-        for g, attempt, pause in ops:
+        for k, (g, attempt, pause) in enumerate(ops):
             t = text_for(case, wi, g, attempt)
             if pause:
                 sh.nap(pause)
+            if case.get("writer_reopens") and k and k % 2 == 0:
+                st.close()              # a writer that works in sessions: the next store re-opens its file for appending
             sh.log("store_call", w=wi, g=g, t=t)
             try:
                 st[g] = t
@@ -35,6 +37,10 @@ def _writer(st, ops, sh, wi, start, case):
                 sh.log("store_ret", w=wi, g=g, t=t, out="ValueError")
             except Exception as e:
                 sh.log("store_ret", w=wi, g=g, t=t, out=f"exc:{type(e).__name__}: {e}")
+        if case.get("linger"):
+            # the writer stays open (idle) for a while after its last store: readers must already see that store
+            sh.log("writer_lingers", w=wi)
+            sh.nap(case["linger"])
     finally:
         try:
             st.close()
